@@ -1073,8 +1073,13 @@ def run(ctx):
                 return None, None
         else:
             rows = q_states(ts, None)
-        arr = rows_to_array(rows)
-        return rows, q_states(arr, emb)
+        if emb is None:
+            return rows, rows
+        # embed the exact rows (no float round trip: ties must stay ties)
+        dim, tau = emb
+        col = [r[0] for r in rows]
+        n_ = len(col) - (dim - 1) * tau
+        return rows, [[col[k + j * tau] for j in range(dim)] for k in range(max(n_, 0))]
 
     def exact_R(metric, rows, st, spec):
         """the statement for spec kinds t / s / r / l on complete data (matrix of 0/1)"""
